@@ -9,6 +9,7 @@ import hashlib
 import json
 import multiprocessing
 import os
+import re
 import sys
 import time
 
@@ -273,6 +274,16 @@ def run_check(args, plan_items, work, PLAN):
         if len(replay_paths) >= 4:
             continue
         small = case
+        iso_t = []
+        for v in remaining:
+            m = re.search(r"Piso\[(P|T):(\d+)(?::(\d+))?\]", v["pass"])
+            if m:
+                t = ["P", int(m.group(2))] if m.group(1) == "P" else ["T", int(m.group(2)), int(m.group(3))]
+                if t not in iso_t:
+                    iso_t.append(t)
+        if iso_t and case.get("kind") == "world":
+            small = dict(case, iso_targets=iso_t[:3])   # the isolation targets that showed it are frozen into the case
+            case = small
         if not args.no_shrink:
             try:
                 small = shrink.shrink(case, sigs, args.tier, max_runs=80 if args.tier == "quick" else 200)
